@@ -75,6 +75,8 @@ type relayWorld struct {
 	srvLn   *verifsim.SimListener
 	srvAddr net.Addr
 	streams map[string]*relayStream
+	closedStreams []*relayStream
+	srvClosed     bool
 	nextPort int // 0 = generator fails
 	lifeMu   sync.Mutex
 	tokenIDs map[string]int
@@ -435,6 +437,7 @@ func (w *relayWorld) listing() string {
 	}
 	am := w.srv.allocationManagers[0]
 	n := 0
+	var relays []net.Addr
 	for _, c := range w.clients {
 		a := am.GetAllocation(w.ft(c))
 		if a == nil {
@@ -453,9 +456,34 @@ func (w *relayWorld) listing() string {
 		}
 		sort.Strings(chans)
 		allocs = append(allocs, fmt.Sprintf("OA %s %s [%s] [%s]", coqNetAddr(c), coqNetAddr(a.RelayAddr), strings.Join(perms, "; "), strings.Join(chans, "; ")))
+		relays = append(relays, a.RelayAddr)
 	}
 	if am.AllocationCount() != n {
 		allocs = append(allocs, fmt.Sprintf("OA (A 0 %d) (A 0 0) [] []", am.AllocationCount())) // count disagrees with what is reachable
+	}
+	// resources: the sockets and listeners open now are the server's own and the relays of the live allocations, and
+	// every live allocation's relay is open. A socket nobody accounts for is listed as an allocation of client (A 0 0),
+	// a live allocation whose relay socket is closed as one of client (A 0 1): the model's listing never has those.
+	allowed := map[string]bool{w.srvConn.LocalAddr().String(): true}
+	if w.srvLn != nil {
+		allowed[w.srvLn.Addr().String()] = true
+	}
+	open := map[string]bool{}
+	for _, k := range w.net.OpenAddrs() {
+		open[k] = true
+	}
+	for _, r := range relays {
+		allowed[r.String()] = true
+		if !open[r.String()] {
+			allocs = append(allocs, fmt.Sprintf("OA (A 0 1) %s [] []", coqNetAddr(r)))
+		}
+	}
+	for _, k := range w.net.OpenAddrs() {
+		if !allowed[k] {
+			if u, err := net.ResolveUDPAddr("udp", k); err == nil {
+				allocs = append(allocs, fmt.Sprintf("OA (A 0 0) %s [] []", coqNetAddr(u)))
+			}
+		}
 	}
 	return "[" + strings.Join(allocs, "; ") + "]"
 }
@@ -1037,6 +1065,30 @@ func (w *relayWorld) evRelayErr(relayPort int, v6 bool) {
 	w.stats["relayerr"]++
 }
 
+// evCtlClose: the client's control connection (stream listeners) ends; the server deletes the allocation of its 5-tuple.
+// A later message from this client opens a new connection from the same address.
+func (w *relayWorld) evCtlClose(ci int) bool {
+	k := w.clients[ci].String()
+	st, ok := w.streams[k]
+	if !ok {
+		return false
+	}
+	_ = st.mine.Close()
+	delete(w.streams, k)
+	w.closedStreams = append(w.closedStreams, st)
+	w.settle(fmt.Sprintf("ECtlClose %s", coqNetAddr(w.clients[ci])))
+	w.stats["ctlclose"]++
+	return true
+}
+
+// evSrvClose: Server.Close. Every allocation ends; nothing may remain. The history ends here.
+func (w *relayWorld) evSrvClose() {
+	_ = w.srv.Close()
+	w.srvClosed = true
+	w.settle("ESrvClose")
+	w.stats["srvclose"]++
+}
+
 func (w *relayWorld) evTick(d time.Duration) {
 	time.Sleep(d)
 	w.settle(fmt.Sprintf("ETick %d", int64(d)))
@@ -1056,7 +1108,7 @@ type relayBias struct {
 
 func relayBiasFor(prop string) relayBias {
 	b := relayBias{credDefect: 8, extremeChan: 15, weights: map[string]int{
-		"allocate": 10, "refresh": 8, "createperm": 14, "channelbind": 14, "send": 12, "chandata": 12, "peer": 16, "tick": 14, "binding": 2, "relayerr": 1}}
+		"allocate": 10, "refresh": 8, "createperm": 14, "channelbind": 14, "send": 12, "chandata": 12, "peer": 16, "tick": 14, "binding": 2, "relayerr": 1, "ctlclose": 2}}
 	switch prop {
 	case "C03":
 		b.credDefect = 55
@@ -1076,6 +1128,9 @@ func relayBiasFor(prop string) relayBias {
 	case "C15":
 		b.weights["relayerr"] = 5
 		b.weights["refresh"] = 12
+		b.weights["ctlclose"] = 6
+	case "C04":
+		b.weights["ctlclose"] = 5
 	case "C05":
 		b.bigPayloads = true
 		b.weights["send"] = 18
@@ -1461,7 +1516,14 @@ func runRelayHistory(t *testing.T, rng *verifsim.RNG, prop string, nEvents int) 
 	if prop == "C05" || rng.Chance(15) {
 		cfg.mtu = verifsim.Pick(rng, []int{0, 512, 1600, 4096, 70000})
 	}
-	if (prop == "C05" && rng.Chance(35)) || (prop != "C05" && rng.Chance(8)) {
+	streamPct := 8
+	switch prop {
+	case "C05":
+		streamPct = 35
+	case "C15", "C04":
+		streamPct = 30 // control connections that close are one of the teardown causes
+	}
+	if rng.Chance(streamPct) {
 		cfg.stream = true // TCP/TLS framing between client and server, requests arriving in segments
 	}
 	synctest.Test(t, func(t *testing.T) {
@@ -1629,11 +1691,22 @@ func runRelayHistory(t *testing.T, rng *verifsim.RNG, prop string, nEvents int) 
 				w.evBinding(ci, w.newTid())
 			case "relayerr":
 				w.evRelayErr(verifsim.Pick(rng, ports), rng.Chance(12))
+			case "ctlclose":
+				if w.cfg.stream {
+					w.evCtlClose(ci)
+				}
 			}
+		}
+		// closing the server is one more way for every allocation to end
+		if (prop == "C15" && rng.Chance(70)) || (prop != "C15" && rng.Chance(20)) {
+			w.evSrvClose()
 		}
 		term, nontrivial, stats = w.term(), w.nontrivial, w.stats
 		for _, st := range w.streams {
 			_ = st.mine.Close()
+			_ = st.theirs.Close()
+		}
+		for _, st := range w.closedStreams {
 			_ = st.theirs.Close()
 		}
 		_ = w.srv.Close()
